@@ -19,7 +19,7 @@ from vf.world import Hang
 
 PID = "C09"
 SERVER_TREE = {"w": {}, "keep": {"k": b"K"}}
-DESTS = ["", "x", "x/y", "x/y/z", "/x/y"]
+DESTS = ["", "x", "x/y", "x/y/z", "/x/y", "//x", "x//y/"]     # incl. a doubled leading slash and redundant slashes
 
 
 def gen_children(budget, depth=0):
@@ -148,7 +148,21 @@ def with_parents(snap):
 
 
 def norm(cwd, p):
-    return posixpath.normpath(posixpath.join(cwd, p)) if p else cwd
+    """the location a path means on the server: '..' folded, '.', empty and doubled slashes dropped (also a doubled
+    leading slash: the server knows one root)"""
+    if not p:
+        return cwd
+    s = p if p.startswith("/") else cwd.rstrip("/") + "/" + p
+    stack = []
+    for part in s.split("/"):
+        if part in ("", "."):
+            continue
+        if part == "..":
+            if stack:
+                stack.pop()
+            continue
+        stack.append(part)
+    return "/" + "/".join(stack)
 
 
 def rename_tree(t, m):
@@ -358,6 +372,8 @@ def build_items(tier):
                             for op in ("upload", "download"):
                                 if op == "download" and dest.startswith("/x") and tier == "quick" and fallback:
                                     continue
+                                if op == "download" and "//" in dest:
+                                    continue        # a local destination: how the client's file system reads it is its own business
                                 cases.append({"op": op, "kind": kind, "tree": tree, "dest": dest,
                                               "write_into": write_into, "cwd": cwd, "block": block, "fallback": fallback})
                 if kind == "dir":
